@@ -33,5 +33,5 @@ func TestKnownProbes(t *testing.T) {
 
 func TestReplay(t *testing.T) {
 	r := vkit.NeedReplay(t)
-	_ = vkit.ReplayCase(t, r, collMem, Run) || vkit.ReplayCase(t, r, collSQL, Run) || vkit.ReplayCase(t, r, collSQLMem, Run) || vkit.ReplayCase(t, r, collDS, Run)
+	_ = vkit.ReplayCase(t, r, collFuzz, runFuzzCase) || vkit.ReplayCase(t, r, collMem, Run) || vkit.ReplayCase(t, r, collSQL, Run) || vkit.ReplayCase(t, r, collSQLMem, Run) || vkit.ReplayCase(t, r, collDS, Run)
 }
